@@ -44,7 +44,11 @@ RULE = ('bids: every subset of {ses,task,run,space,desc} x derivative in {none,f
         'into 1-3 runs x every choice of 1-2 filter columns per run x voxel count x fill, one '
         'evaluation per spm_filter / get_residuals call. Non-trivial = the oracle can tell a '
         'wrong answer from a right one (e.g. the data have a component in the filter space); '
-        'distinct = distinct case descriptor.')
+        'distinct = distinct case descriptor. bids_seq: every ordered pair (thorough: also every '
+        'ordered triple) of files of a small dataset whose files differ from a base file in exactly '
+        'one entity, the same look-up (or all look-ups) applied to each in turn through ONE BidsLayout, '
+        'one evaluation per look-up. meadows stimulus names come from five alphabets, three of them '
+        'with prefix pairs continued by characters on both sides of the dot.')
 ASSUMPTIONS = [
     'BIDS labels are alphanumeric (BIDS specification); the path grammar is sub, ses, task, run, '
     'space, desc + suffix + extension with sub-/ses-/modality directories and an optional '
@@ -141,6 +145,14 @@ def shards(tier, seed):
             for suffix, ext, modality in SUFFIXES:
                 out.append({'part': 'bids', 'spelling': sp, 'deriv': deriv, 'suffix': suffix,
                             'ext': ext, 'modality': modality})
+    for lay in SEQ_LAYOUTS:
+        n_files = len(_seq_files(lay))
+        for op in SEQ_OPS:
+            if thorough:
+                for first in range(n_files):
+                    out.append({'part': 'bids_seq', 'layout': lay, 'op': op, 'length': 3, 'first': [first]})
+            out.append({'part': 'bids_seq', 'layout': lay, 'op': op, 'length': 2,
+                        'first': list(range(n_files))})
     for shape in ('1p1t', '1pMt', 'Mp1t'):
         for n_stim in b['meadows_n_stim']:
             for sort in (True, False):
@@ -165,7 +177,7 @@ def shards(tier, seed):
                 out.append({'part': 'spm', 'total': total, 'runs': runs})
     if not thorough:
         # interleave the parts so that the slow ones (mne) start early
-        out.sort(key=lambda s: {'mne': 0, 'meadows': 1, 'bids': 2, 'design': 3, 'spm': 4}[s['part']])
+        out.sort(key=lambda s: {'mne': 0, 'meadows': 1, 'bids': 2, 'bids_seq': 2, 'design': 3, 'spm': 4}[s['part']])
     return out
 
 
@@ -178,6 +190,13 @@ def run_shard(shard, ctx):
                 run_case({'part': 'bids', 'spelling': shard['spelling'], 'deriv': shard['deriv'],
                           'suffix': shard['suffix'], 'ext': shard['ext'],
                           'modality': shard['modality'], 'present': list(present)}, ctx, root)
+    elif part == 'bids_seq':
+        with _scratch() as root:
+            n_files = len(_seq_files(shard['layout']))
+            for seq in itertools.permutations(range(n_files), shard['length']):
+                if seq[0] in shard['first']:
+                    run_case({'part': 'bids_seq', 'layout': shard['layout'], 'op': shard['op'],
+                              'seq': list(seq)}, ctx, root)
     elif part == 'meadows':
         with _scratch() as root:
             for case in _meadows_cases(shard, b, ctx.tier):
@@ -230,6 +249,9 @@ def _run_case(case, ctx, root=None):
     if part == 'bids':
         with _scratch(root) as d:
             _bids_case(case, ctx, d)
+    elif part == 'bids_seq':
+        with _scratch(root) as d:
+            _bids_seq_case(case, ctx, d)
     elif part == 'meadows':
         with _scratch(root) as d:
             _meadows_case(case, ctx, d)
@@ -402,10 +424,113 @@ def _bids_case(case, ctx, root):
             os.remove(wpath)
 
 
+# ------------------------------------------------- BIDS: sequences of look-ups on ONE layout
+SEQ_LAYOUTS = ['deriv_full', 'raw_task']
+SEQ_OPS = ['find_meta_for', 'get_meta', 'find_events_for', 'get_events', 'get_table_sibling',
+           'get_mri_sibling', 'all']
+_SEQ_LOOKUP = {'find_meta_for': ('meta', None, None), 'get_meta': ('meta', None, None),
+               'find_events_for': ('events', None, None), 'get_events': ('events', None, None),
+               'get_table_sibling': ('table_sibling',) + TABLE_SIBLINGS[0],
+               'get_mri_sibling': ('mri_sibling',) + MRI_SIBLINGS[0]}
+_SEQ_READY = set()
+
+
+def _seq_files(name):
+    """a small dataset: one file plus every file that differs from it in exactly one entity
+    (another value of each entity it has, another suffix, desc present / absent, raw /
+    derivative)"""
+    v, alt = SPELLINGS['plain'], SPELLINGS['mixed']
+    if name == 'deriv_full':
+        base = ref.bids_entities(ref.OPTIONAL_ENTITIES, v, 'bold', 'nii.gz', 'func', 'fmriprep')
+    elif name == 'raw_task':
+        base = ref.bids_entities(('task',), v, 'bold', 'nii.gz', 'func', None)
+    else:
+        raise ValueError(name)
+    files = [base]
+    for key in ref.FNAME_ENTITIES:
+        if base[key] is not None:
+            files.append(ref.with_changes(base, {key: alt[key]}))
+    files.append(ref.with_changes(base, {'suffix': 'boldref'}))
+    if base['desc'] is None:
+        files.append(ref.with_changes(base, {'desc': v['desc']}))
+        files.append(ref.with_changes(base, {'desc': alt['desc']}))
+    else:
+        files.append(ref.with_changes(base, {'desc': None}))
+    files.append(ref.with_changes(base, {'derivative': None if base['derivative'] else 'fmriprep'}))
+    return files
+
+
+def _bids_seq_case(case, ctx, root):
+    """the look-up `op` applied to the files seq[0], seq[1], ... through one BidsLayout; every
+    answer must be the one the file would get on its own"""
+    from rsatoolbox.io import bids
+    files = _seq_files(case['layout'])
+    key = (root, case['layout'])
+    if key not in _SEQ_READY:
+        for ent in files:
+            for lookup, desc, suffix in set(_SEQ_LOOKUP.values()):
+                _write_marker(root, ref.bids_relpath(ref.with_changes(ent, ref.lookup_changes(lookup, desc, suffix))))
+        _SEQ_READY.add(key)
+    layout = bids.BidsLayout(root, nibabel=_NibabelStub)
+    ops = [o for o in SEQ_OPS if o != 'all'] if case['op'] == 'all' else [case['op']]
+    for pos, idx in enumerate(case['seq']):
+        ent = files[idx]
+        relpath = ref.bids_relpath(ent)
+        for op in ops:
+            lookup, desc, suffix = _SEQ_LOOKUP[op]
+            sub = dict(case, position=pos, lookup=op)
+            ctx.case(sub, nontrivial=pos > 0 or len(ops) > 1)
+            want_ent = ref.with_changes(ent, ref.lookup_changes(lookup, desc, suffix))
+            want = ref.bids_relpath(want_ent)
+            when = 'first-look-up' if pos == 0 and op == ops[0] else 'after-earlier-look-ups'
+            owner = 'BidsLayout' if op.startswith('find_') else ('BidsFile' if op in ('get_meta', 'get_table_sibling') else 'BidsMriFile')
+            sigp = '%s.%s|%s' % (owner, op, when)
+            with ctx.guard(sigp, sub):
+                base = bids.BidsMriFile(relpath, layout, _NibabelStub)     # a fresh file object
+                if op == 'find_meta_for':
+                    found = layout.find_meta_for(base)
+                    got = found.relpath
+                elif op == 'find_events_for':
+                    found = layout.find_events_for(base)
+                    got = found.relpath
+                elif op == 'get_meta':
+                    found, got = None, base.get_meta().get('marker')
+                elif op == 'get_events':
+                    found, got = None, base.get_events()['marker'][0]
+                elif op == 'get_table_sibling':
+                    found = base.get_table_sibling(desc=desc, suffix=suffix)
+                    got = found.get_frame()['marker'][0]
+                else:
+                    found = base.get_mri_sibling(desc=desc, suffix=suffix)
+                    got = os.path.relpath(found.get_data(), root)
+                got = os.path.normpath(str(got))
+                ctx.outcome(('seq', op, pos, tuple(ref.changed_keys(ent, want_ent))))
+                if got != os.path.normpath(want):
+                    ctx.fail('%s|%s' % (sigp, _path_diff(want, got)), sub,
+                             'look-ups on one layout for %r: %s of %s answered %s, expected %s' % (
+                                 [ref.bids_relpath(files[i]) for i in case['seq'][:pos + 1]], op, relpath,
+                                 got, want))
+                    continue
+                if found is not None:
+                    for k in ref.ALL_KEYS:
+                        if getattr(found, k, '<no attribute>') != want_ent[k]:
+                            ctx.fail('%s|returned-object-entity=%s' % (sigp, k), sub,
+                                     'returned %s reports %s=%r' % (got, k, getattr(found, k, None)))
+
+
 # ------------------------------------------------------------------------------ Meadows
+# stimulus-name alphabets.  The 'prefix_*' sets hold names of which one is a strict prefix of
+# others, continued by characters from both sides of '.' in ASCII (' ' '(' '-' < '.' < digits <
+# '_' < letters): the order of the *labels* (names without extension) then differs from the
+# order of the raw file names.
 MAT_NAMES = {'png': ['stim002.png', 'stim010.png', 'stim101.png', 'stim118.png', 'stim120.png'],
-             'ragged': ['a.png', 'bb.jpg', 'ccc.png', 'd10.png', 'e.jpeg']}
-JSON_NAMES = ['ant', 'beach', 'fireplace', 'river', 'stone']
+             'ragged': ['a.png', 'bb.jpg', 'ccc.png', 'd10.png', 'e.jpeg'],
+             'prefix_low': ['dog.jpg', 'dog (2).jpg', 'dog-inv.jpg', 'cat.jpg', 'dog(1).jpg'],
+             'prefix_high': ['face.png', 'face_inv.png', 'face2.png', 'facet.png', 'fac.png'],
+             'prefix_mixed': ['a.png', 'a-b.png', 'a_b.png', 'a b.png', 'a1.png']}
+MAT_NAME_SETS = ['png', 'ragged', 'prefix_low', 'prefix_high', 'prefix_mixed']
+JSON_NAMES = {'plain': ['ant', 'beach', 'fireplace', 'river', 'stone'],
+              'prefix': ['dog', 'dog (2)', 'dog_b', 'dog-inv', 'dog2']}
 
 
 def _meadows_cases(shard, b, tier):
@@ -413,7 +538,7 @@ def _meadows_cases(shard, b, tier):
     for order in shard['orders']:
         base = {'part': 'meadows', 'shape': shape, 'n_stim': n_stim, 'sort': sort, 'order': list(order)}
         if shape == '1p1t':
-            for names in ('png', 'ragged'):
+            for names in MAT_NAME_SETS:
                 for participant, tidx in (('cuddly-bunny', 3), ('able-fly', 12)):
                     yield dict(base, names=names, participant=participant, task_index=tidx)
         elif shape == 'Mp1t':
@@ -422,12 +547,15 @@ def _meadows_cases(shard, b, tier):
                     variants = [(False, 'png', 'arrangement')]
                     if tier == 'thorough' or list(porder) == sorted(porder):
                         variants.append((True, 'ragged', 'ma1'))
+                        variants += [(k % 2 == 1, ns, 'arrangement')
+                                     for k, ns in enumerate(MAT_NAME_SETS) if ns.startswith('prefix')]
                     for inter, names, tname in variants:
                         yield dict(base, names=names, participants=[MEADOWS_PARTICIPANTS[i] for i in porder],
                                    interleaved=inter, task_name=tname)
         else:
             for layout in _json_layouts(b['json_layout_len']):
-                yield dict(base, layout=layout, participant='informed-mole')
+                for names in sorted(JSON_NAMES):
+                    yield dict(base, layout=layout, participant='informed-mole', names=names)
 
 
 def _utv(file_labels, base_labels, r, seed):
@@ -453,7 +581,7 @@ def _meadows_case(case, ctx, root):
     expected = []          # list of (row key descriptor, key value, utv in file order, extra descriptors)
     optional = []          # tasks the loader may skip: (key, value, utv in the task's own order, its labels)
     if shape == '1pMt':
-        base_labels = JSON_NAMES[:n]
+        base_labels = JSON_NAMES[case.get('names', 'plain')][:n]
         file_labels = [base_labels[i] for i in order]
         labels_out = list(file_labels)
         tasks, r = [], 0
@@ -479,8 +607,8 @@ def _meadows_case(case, ctx, root):
     else:
         base_files = MAT_NAMES[case['names']][:n]
         file_files = [base_files[i] for i in order]
-        base_labels = [f.split('.')[0] for f in base_files]
-        file_labels = [f.split('.')[0] for f in file_files]
+        base_labels = [ref.stimulus_label(f) for f in base_files]
+        file_labels = [ref.stimulus_label(f) for f in file_files]
         if shape == '1p1t':
             u = _utv(file_labels, base_labels, 0, ctx.seed)
             fname = ref.meadows_filename('1p1t', 'myExp', 1, '1D', 'mat',
